@@ -27,7 +27,9 @@ ASSUMPTIONS = [
     "ASan's own handlers for SIGSEGV/SIGBUS/SIGFPE are reset to SIG_DFL by the child before it raises the signal "
     "(otherwise ASan turns the signal into exit(77), a non-zero exit, which is also recorded once)",
 ]
-RULE = ("registries of 1..6 tests in separate-process mode; per test either a scripted fork/waitpid outcome list "
+RULE = ("registries of 1..12 tests in one or several groups (dying tests also 2nd..4th of their group), separate-process mode "
+        "set through the registry API or through CommandLineTestRunner with -p; a second harness build without "
+        "fork/waitpid/kill; per test either a scripted fork/waitpid outcome list "
         "(exit codes, signals with and without core flag, stops, continued-style words, EINTR runs around the retry bound, "
         "waitpid errors, fork failure, trailing results after the child's end, scripts that never end) or a real child that "
         "dies by a signal / _exit(n) / failed check / SIGSTOP in setup, body, teardown or a plugin pre/post action, optionally "
@@ -124,9 +126,27 @@ def script(rng, t):
     return ops
 
 
+def group_lines(rng, n):
+    """adjacent tests with the same group name form a group: one group for all (no lines), a few
+    groups of several tests, or every test its own group"""
+    x = rng.random()
+    if x < 0.4:
+        return []
+    if x < 0.55:
+        return ["grp %d %d" % (t, t) for t in range(n)]
+    g, out = 0, []
+    for t in range(n):
+        if t and rng.random() < 0.35:
+            g += 1
+        out.append("grp %d %d" % (t, g if rng.random() < 0.9 else rng.randrange(0, 3)))
+    return out
+
+
 def stub_case(rng):
     n = rng.choice([1, 2, 3, 3, 4, 6])
-    ops = ["tests %d" % n]
+    ops = ["tests %d" % n] + group_lines(rng, n)
+    if rng.random() < 0.15:
+        ops.append("cli")
     per = [script(rng, t) for t in range(n)]
     if rng.random() < 0.3:                                # interleave the lines of different tests (order per test kept)
         rest = [list(p) for p in per if p]
@@ -197,11 +217,45 @@ def real_case(rng, dying):
     for d in dying:
         tests.append(d)
         tests.append(("body", [("none", 0)], 0))
-    ops = ["tests %d" % len(tests)]
+    ops = ["tests %d" % len(tests)] + group_lines(rng, len(tests))
+    if rng.random() < 0.3:
+        ops.append("cli")
     for t, (ph, acts, inj) in enumerate(tests):
         ops.append("real %d %s %s" % (t, ph, " ".join("%s %d" % a for a in acts)))
         if inj:
             ops.append("inj %d %d" % (t, inj))
+    ops.append("run")
+    return ops
+
+
+def grouped_case(rng, cli=False):
+    """several groups of several tests; the tests that die are never the first of their group"""
+    sizes = [rng.choice([2, 3, 4]) for _ in range(rng.choice([1, 2, 3]))]
+    n = sum(sizes)
+    ops = ["tests %d" % n]
+    if cli:
+        ops.append("cli")
+    t = 0
+    for g, size in enumerate(sizes):
+        dying = set(rng.sample(range(1, size), rng.choice([1, min(2, size - 1)])))
+        for k in range(size):
+            ops.append("grp %d %d" % (t, g))
+            if k in dying:
+                x = rng.random()
+                if x < 0.45:
+                    acts = [("signal", rng.choice(SIGS_TERM))]
+                elif x < 0.7:
+                    acts = [("exit", rng.choice([1, 2, 3, 77, 255, rng.randrange(1, 256)]))]
+                elif x < 0.85:
+                    acts = [("stop", 0)] + rng.choice([[], [("signal", 9)], [("exit", 5)]])
+                else:
+                    acts = [("fail", 0)]
+                ops.append("real %d %s %s" % (t, rng.choice(PHASES), " ".join("%s %d" % a for a in acts)))
+            elif rng.random() < 0.3:
+                ops.append("w %d st %x" % (t, rng.choice([0, st_exit(1), st_sig(6)])))
+            else:
+                ops.append("real %d body none 0" % t)
+            t += 1
     ops.append("run")
     return ops
 
@@ -270,10 +324,14 @@ def generate(rng, tier):
         for _ in range(600):
             dying = [(rng.choice(PHASES), rand_action(rng), rng.choice([0, 0, 0, 1, 5, B, B + 3, B + 10])) for _ in range(rng.choice([1, 2, 3, 4]))]
             out.append(("real", real_case(rng, dying)))
+    for i in range(60 if quick else 800):
+        out.append(("groups", grouped_case(rng, cli=(i % 3 == 0))))
     # mixed registries: stubbed and real tests side by side
     for _ in range(20 if quick else 300):
         n = rng.choice([2, 3, 4, 5])
-        ops = ["tests %d" % n]
+        ops = ["tests %d" % n] + group_lines(rng, n)
+        if rng.random() < 0.3:
+            ops.append("cli")
         for t in range(n):
             if rng.random() < 0.5:
                 ops += script(rng, t)
@@ -307,6 +365,8 @@ def malformed_case(rng):
             ops.append("fork %d" % t)
         elif x < 0.8:
             ops.append("real %d nowhere signal 9" % t)
+        elif x < 0.84:
+            ops.append(rng.choice(["grp %d 5000" % t, "grp %d" % t, "cli", "cli now", "grp %d 1" % t]))
         elif x < 0.9:
             ops.append("run")
         else:
@@ -345,7 +405,9 @@ def nontrivial(r):
 
 def observe(r, rep):
     for m in _msgs(r):
-        if "killed by signal" in m:
+        if "doesn't work on this platform" in m:
+            rep.count("failure.no_fork_on_this_platform")
+        elif "killed by signal" in m:
             rep.count("failure.killed_by_signal")
         elif m.startswith("Stopped"):
             rep.count("failure.stopped")
@@ -357,6 +419,7 @@ def observe(r, rep):
             rep.count("failure.fork_failed")
         elif m.startswith("Failed in separate process"):
             rep.count("failure.exit_nonzero_or_failed_check")
+
         else:
             rep.count("failure.other")
     for l in r.impl:
@@ -368,12 +431,67 @@ def observe(r, rep):
             rep.count("real_wait." + l.split()[2])
         elif l.startswith("deadline"):
             rep.count("deadline")
+        elif l.startswith("inrunner "):
+            rep.count("test_executed_inside_runner")
+        elif l.startswith("exitcode "):
+            rep.count("cli_runs.exitcode_" + ("zero" if l.split()[1] == "0" else "nonzero"))
+        elif l.startswith("childtext "):
+            rep.count("child_failure_text_on_shared_stdout." + ("yes" if l.split()[2] != "0" else "none_expected_or_seen"))
     if r.id.startswith("words:"):
         rep.count("status_words_16bit", sum(1 for o in r.ops if o.startswith("w ")) // 2)
 
 
+def nofork_case(rng):
+    n = rng.choice([1, 2, 3, 5])
+    ops = ["tests %d" % n] + group_lines(rng, n)
+    if rng.random() < 0.4:
+        ops.append("cli")
+    for t in range(n):
+        ops += script(rng, t)[:3]          # whatever the seams would answer: they are never asked
+    ops.append("run")
+    return ops
+
+
+def nofork_variant(ctx):
+    """second build: UtestPlatform.cpp compiled without CPPUTEST_HAVE_FORK/WAITPID/KILL (the fork-less
+    GccPlatformSpecificRunTestInASeperateProcess), same harness, same driver (op `nofork`)"""
+    import random
+    from vlib import core, flow
+    rep = ctx.rep
+    hdr = os.path.join(core.VERIF, "harness", "h_c11_nofork.h")
+    try:
+        exe2 = core.build_harness(HARNESS, "asan", extra_flags=("-include", hdr, "-DVH_C11_NOFORK"),
+                                  extra_sources=(os.path.join(core.REPO, "src", "Platforms", "Gcc", "UtestPlatform.cpp"),))
+    except core.CheckError as e:
+        rep.notes.append("fork-less build variant does not compile: %s" % str(e)[-300:])
+        return
+    rng = random.Random(ctx.seed * 7919 + 11)
+    cases = [("nofork:%d" % i, nofork_case(rng)) for i in range(30 if ctx.tier == "quick" else 300)]
+    impl_out, err = core.run_harness(exe2, cases)
+    model_out = core.run_driver(ID, impl_out)
+    results = core.compare(cases, impl_out, model_out, ignore=ignore_line)
+    bad = None
+    for r in results:
+        rep.evaluations += 1
+        rep.traces += 1
+        rep.count("cases.nofork")
+        observe(r, rep)
+        failing = r.crash or (r.spec and r.spec.startswith("spec FAIL")) or not r.agree
+        if failing and (bad is None or len(r.ops) < len(bad.ops)):
+            bad = r
+    if bad is not None:
+        impl_fails = bool(bad.crash or (bad.spec and bad.spec.startswith("spec FAIL")))
+        hdr_lines = ["kind: build variant WITHOUT fork/waitpid/kill (harness compiled with -include harness/h_c11_nofork.h "
+                     "-DVH_C11_NOFORK and src/Platforms/Gcc/UtestPlatform.cpp recompiled that way)",
+                     "detail: " + flow.describe(bad), "found in case: " + bad.id,
+                     "note: --replay runs the normal (fork) variant; this input only fails on the fork-less variant"]
+        rep.violation("property %s, fork-less build variant: %s" % (ID, flow.describe(bad)),
+                      flow.replay_text(ctx.mod, bad, hdr_lines, err), name="nofork", no_input=not impl_fails)
+
+
 def extra(ctx, exe):
-    """no stopped / zombie harness process may be left behind by the real-process part"""
+    """second build variant; no stopped / zombie harness process may be left behind by the real-process part"""
+    nofork_variant(ctx)
     left = []
     try:
         for pid in os.listdir("/proc"):
@@ -401,8 +519,11 @@ LEVEL_TEXT = ("Machine-checked Lean 4 theorems over an executable model of GccPl
               "sequence of fork/waitpid results of any length and every 32-bit status word: exactly one failure of the right class "
               "per death event (signal with its number, non-zero exit, stop), none for a normal exit, fork and waitpid failures "
               "reported once, EINTR retried at most bound+2 times in total (bound regenerated from the source) with exactly one "
-              "giving-up failure, the loop ends exactly at the first exited/killed status, SIGCONT once per stop, and the registry "
-              "goes on to every later test and reports an overall failure. The glibc macro bit-twiddling is proved equal to the "
+              "giving-up failure, the loop ends exactly at the first exited/killed status, SIGCONT once per stop, the registry "
+              "sets the flag for every test whatever the grouping (placement regenerated), goes on to every later test and "
+              "reports an overall failure (also as the runner's exit code); the child exits non-zero iff any step (plugin pre/post "
+              "action, setup, body, teardown) added a failure; on a build without fork every test gets exactly the one "
+              "'-p doesn't work' failure. The glibc macro bit-twiddling is proved equal to the "
               "textbook reading of the status word. The model is tied to the code on every run by regenerated constants/chain, a "
               "shape check of the loop, and a differential harness (stubbed seams: all status words, EINTR grids; real children: "
               "every signal and exit status in every phase, under ASan/UBSan and a deadline).")
